@@ -282,7 +282,7 @@ Qed.
 Lemma consumer_group_by i l k v : Denotes i l -> forall s, exists fuel s',
   apply_stage fuel s (SGroupBy k v) (RIter i) =
   (s', if forallb (fun x => hashable (apply k x)) l
-       then Ok (RIter (OfList (map (fun g => pair_val (fst g) (VList true (snd g)))
+       then Ok (RIter (OfList (map (fun g => pair_val (fst g) (VList false (snd g)))
                                    (group_by_l val_eqb (apply k) (fun x => match v with Some g => apply g x | None => x end) l))))
        else Err EType).
 Proof.
